@@ -20,6 +20,14 @@ CORPUS = {
     "func-loop": 'Signal a = ("signal-A", 3);\nfunc sc(Signal s, int n) {\n    return s * n + 1;\n}\nfor i in 0..4 {\n    Entity l = place("small-lamp", i * 2, -6);\n    l.enable = sc(a, i) > 4;\n}\nSignal r = sc(a, 5);\n',
 }
 
+CORPUS.update({
+    # a value fanning out to its own projection and to a combinator that reads both (two wires between one pair)
+    "fan-proj": 'Signal x = ("signal-A", 7);\nSignal s = x * 3;\nSignal c = s | "signal-B";\nSignal t = s * c;\nSignal u = t + s;\n',
+    "fan-proj-items": 'Signal x = ("iron-plate", 7);\nSignal y = ("copper-plate", 4);\nSignal s = (x + (y | "iron-plate")) * 3;\nSignal c = s | "copper-plate";\nSignal t = s + c;\nSignal u = t * 2;\n',
+    # one producer feeding two same-named consumers, one of which feeds the other
+    "same-name-chain": 'Signal c = ("signal-X", 7);\nSignal s = (c + 1) | "signal-X";\nSignal a = (s + 1) | "signal-X";\nSignal b = (s * a) | "signal-X";\n',
+})
+
 SIZED = {
     "lamps-10": 'Signal a = ("signal-A", 3);\nfor i in 0..10 {\n    Entity l = place("small-lamp", i, -6);\n    l.enable = a > i;\n}\n',
     "combs-60": 'Signal a = ("signal-A", 3);\n' + "".join(f"Signal r{i} = (a + {i}) * {i + 2};\n" for i in range(28)),
